@@ -1297,6 +1297,15 @@ fn check_doc_error(e: &Error, cx: &DocCx) -> Result<(), String> {
                         return Err(format!("the snippet of an issue does not show the source line of its use site: doc {di}: `{}` line {} ({src:?}): {snip_text:?}", s.path, r.line));
                     }
                 }
+                // ... and, for a value that came through an anchor, the line of its definition
+                if let Some(d) = s.d {
+                    if let Some(src) = cx.lines.get(d.line as usize - 1) {
+                        let src = src.trim_end();
+                        if src.chars().count() <= 60 && !snip_text.contains(&format!("{} | {}", d.line, src)) {
+                            return Err(format!("the snippet of an issue does not show the source line of its definition site: doc {di}: `{}` defined at line {} ({src:?}): {snip_text:?}", s.path, d.line));
+                        }
+                    }
+                }
             }
         }
     } else if snip.len() != plain.len() {
